@@ -24,6 +24,24 @@ CHECKS = {
         note='Transactions are atomic steps (SQLite mode of Mistral); the '
              'reference model (mc/refmodel.py) is trusted as the reading of '
              'the language; corpus bounded as stated in evidence.'),
+    'C03': dict(
+        level='model_checking', design='3/C03',
+        technique='explicit-state model checking of the implementation: '
+                  'DFS over interleavings x operator commands issued at '
+                  'every point; transition oracle on committed DB images + '
+                  'monitor on every workflow state compare-and-swap',
+        text='Small programs (plain, fork/join, async action, retry, '
+             'sub-workflow, with-items) x results are explored with command '
+             'menus (pause/resume, stop x3, rerun, skip, external and late '
+             'contradicting results, async PAUSED/RUNNING updates; <= 2 '
+             'commands) issued at every point; every step is checked: final '
+             'workflow states only left by rerun, SUCCESS never, each '
+             'individual state change in the statement table, completed '
+             'actions and succeeded tasks never change, finished workflows '
+             'keep state/output.',
+        note='Committed states (transaction granularity) + per-call monitor '
+             'of the state CAS; commands delivered where issued; bounds in '
+             'evidence.'),
     'C04': dict(
         level='model_checking', design='3/C04',
         technique='explicit-state model checking of the implementation: '
